@@ -28,8 +28,7 @@ Print Assumptions C05_seq_single.
    submission in flight at a time: the send-order mutex, a lock fact checked on the generated lock
    programs), each submission being three separately locked steps - allocate the number, ask the node
    table, append to the packet buffer - and the receiver thread may process whole uplink messages
-   (answers, stall notices, releasing deferred traffic) and the heartbeat thread may run whole expiry
-   passes (MExpire, releasing deferred traffic) between any two of these steps. For every such
+   (answers, stall notices, releasing deferred traffic) between any two of these steps. For every such
    schedule and every node, the sequence numbers of the messages handed to the packet buffer are
    1, 2, ..., 255, 1, ... in buffer (= wire) order. *)
 Theorem C05_seq_all_schedules : forall ss s out, micro_run ms_init ss = Some (s, out) ->
@@ -42,17 +41,6 @@ Print Assumptions C05_seq_all_schedules.
 Example C05_schedule_nonvacuous :
   let ss := [MBegin (1,0,0) 22 [1]; MAdmit; MBuffer; MBegin (1,0,0) 23 [2]; MAdmit; MBuffer;
              MBegin (1,0,0) 7 [3]; MUp [1] 147 0; MAdmit; MUp [1] 147 0; MBuffer] in
-  match micro_run ms_init ss with
-  | Some (_, out) => map (msg_seq [1]) (to_node [1] out) = [1; 2; 3]
-  | None => False
-  end.
-Proof. vm_compute. reflexivity. Qed.
-
-(* non-vacuity with the timer: the heartbeat thread releases a deferred message (its predecessors have
-   expired) between the allocation and the admission of the next submission *)
-Example C05_schedule_timer_nonvacuous :
-  let ss := [MBegin (1,0,0) 22 [1]; MAdmit; MBuffer; MBegin (1,0,0) 23 [2]; MAdmit; MBuffer;
-             MBegin (1,0,0) 7 [3]; MTime 5; MExpire; MAdmit; MBuffer] in
   match micro_run ms_init ss with
   | Some (_, out) => map (msg_seq [1]) (to_node [1] out) = [1; 2; 3]
   | None => False
